@@ -10,6 +10,7 @@ package tars
 
 import (
 	"context"
+	"net"
 	"sync/atomic"
 	"time"
 
@@ -49,12 +50,56 @@ func c08Setup(timeoutMs int) (*ServantProxy, *AdapterProxy) {
 	pt := &endpointf.EndpointF{Host: "10.0.0.1", Port: 1, Istcp: 1}
 	conf := &transport.TarsClientConf{Proto: "tcp", ReadTimeout: 100 * time.Millisecond}
 	adp := &AdapterProxy{point: pt, conf: conf, comm: comm, status: true}
-	adp.tarsClient = transport.NewTarsClient("10.0.0.1:1", adp, conf)
+	c08Wire = make(chan int32, 8)
+	addr := "10.0.0.1:1"
+	if !vapi.Engine() {
+		// native replay: the requests travel over a real loopback connection to a server that only
+		// records their ids on the same "wire" channel; the peer script still answers through
+		// adp.Recv, as the client receive loop would
+		addr = c08NativeWire()
+	}
+	adp.tarsClient = transport.NewTarsClient(addr, adp, conf)
 	s := &ServantProxy{name: "obj", comm: comm, proto: &protocol.TarsProtocol{}, timeout: timeoutMs, version: 1}
 	s.manager = &c08Mgr{adp}
 	adp.servantProxy = s
-	c08Wire = make(chan int32, 8)
 	return s, adp
+}
+
+func c08NativeWire() string {
+	ln, err := net.Listen("tcp", "127.0.0.1:0")
+	if err != nil {
+		panic(err)
+	}
+	go func() {
+		for {
+			c, err := ln.Accept()
+			if err != nil {
+				return
+			}
+			go func(c net.Conn) {
+				var buf []byte
+				tmp := make([]byte, 4096)
+				for {
+					n, err := c.Read(tmp)
+					if err != nil {
+						return
+					}
+					buf = append(buf, tmp[:n]...)
+					for len(buf) >= 4 {
+						l := int(buf[0])<<24 | int(buf[1])<<16 | int(buf[2])<<8 | int(buf[3])
+						if l < 4 || len(buf) < l {
+							break
+						}
+						var p requestf.RequestPacket
+						_ = p.ReadFrom(codec.NewReader(buf[4:l]))
+						buf = buf[l:]
+						c08Wire <- p.IRequestId
+					}
+				}
+			}(c)
+		}
+	}()
+	return ln.Addr().String()
 }
 
 func c08Reply(id int32, payload int8) []byte {
@@ -106,8 +151,10 @@ func c08Peer(adp *AdapterProxy, steps int) {
 			if act < len(seen) {
 				go adp.Recv(c08Reply(seen[act], int8(seen[act])))
 			}
-		case 2: // an id nobody is waiting for
-			go adp.Recv(c08Reply(seen[0]^0x40000000, 99))
+		case 2: // ANY id nobody is waiting for (this run's ids are 7 and 8; 0 is the push id)
+			x := vapi.Int32("stray")
+			vapi.Assume(vapi.And(x != 0, vapi.And(x != 7, x != 8)))
+			go adp.Recv(c08Reply(x, 99))
 		case 3: // id 0: server push
 			go adp.Recv(c08Reply(0, 98))
 		case 4: // silent
